@@ -26,3 +26,34 @@ ZOO += [
      "    F *= dt; Q *= dt\n    H[:n, :n] = F; H[:n, n:] = Q; H[n:, n:] = -F.T\n    H = expm(H)\n"
      "    if dt != 0:\n        F /= dt; Q /= dt\n"),
 ]
+ZOO += [
+    # ---- C16 earth / geodetic transforms
+    ('C16-ecef-z', 'C16', 'transform.py', "r_e[2] = ((1 - earth.E2) * re + alt) * sin_lat",
+     "r_e[2] = (re + alt) * sin_lat * (1 - earth.E2)"),
+    ('C16-curv-south', 'C16', 'earth.py', "np.tan(np.deg2rad(lat))", "np.tan(np.deg2rad(np.abs(lat)))"),
+    ('C16-g0-sign', 'C16', 'earth.py', "g0_g[0] = RATE**2 * rp * sin_lat", "g0_g[0] = -RATE**2 * rp * sin_lat"),
+    ('C16-olson-a4', 'C16', 'transform.py', "a4 = 2.5 * a2", "a4 = 2.0 * a2"),
+    ('C16-rp-alt', 'C16', 'earth.py', "return rn + alt, re + alt, (re + alt) * cos_lat",
+     "return rn + alt, re + alt, re * cos_lat + alt"),
+    ('C16-gravity-compiled', 'C16', '_numba_integrate.py', "(1 - 2 * alt / earth.A))", "(1 - 2 * alt / earth.A) ** 1.0000001)"),
+    ('C16-diff-radii', 'C16', 'transform.py', "result[:, 1] = np.deg2rad(diff[:, 1]) * rp",
+     "result[:, 1] = np.deg2rad(diff[:, 1]) * rp * (1 + 1e-5)"),
+    ('C16-lon-west', 'C16', 'transform.py', "lla[:, 1] += np.rad2deg(dr_n[:, 1] / rp)",
+     "lla[:, 1] += np.rad2deg(dr_n[:, 1] / rp) * np.where(lla[:, 1] < -179.5, 1 + 1e-4, 1)"),
+    ('C16-scalar-maten', 'C16', 'transform.py',
+     "return Rotation.from_euler('ZY', [lon, -90 - lat], degrees=True).as_matrix()",
+     "return Rotation.from_euler('ZY', [lon, -90 - lat + 1e-7], degrees=True).as_matrix()"),
+]
+ZOO += [
+    # ---- C17 attitude / rotation primitives
+    ('C17-taylor-k1', 'C17', '_numba_integrate.py', "k1 = 1 - norm2 / 6 + norm4 / 120", "k1 = 1 - norm2 / 6 + norm4 / 24"),
+    ('C17-taylor-cos', 'C17', '_numba_integrate.py', "cos = 1 - norm2 / 2 + norm4 / 24", "cos = 1 - norm2 / 2 + norm4 / 12"),
+    ('C17-branch-norm', 'C17', '_numba_integrate.py', "if norm2 > 1e-6:", "if norm2 > 1e-3:"),
+    ('C17-taylor-k2', 'C17', '_numba_integrate.py', "k2 = 0.5 - norm2 / 24 + norm4 / 720", "k2 = 0.5 - norm2 / 12 + norm4 / 720"),
+    ('C17-phi-heading-pitch', 'C17', 'error_model.py', "result[:, 2, 1] = -sin[:, 2] * sin[:, 1] / cos[:, 1]",
+     "result[:, 2, 1] = -sin[:, 2] * sin[:, 1]"),
+    ('C17-phi-roll-sign', 'C17', 'error_model.py', "result[:, 0, 1] = -sin[:, 2] / cos[:, 1]",
+     "result[:, 0, 1] = -sin[:, 2] * cos[:, 1]"),
+    ('C17-to-rph-wrap', 'C17', 'transform.py', "return Rotation.from_matrix(mat).as_euler('xyz', degrees=True)",
+     "rph = Rotation.from_matrix(mat).as_euler('xyz', degrees=True)\n    return np.where(rph < -179.9999, rph + 360 + 1e-6, rph)"),
+]
